@@ -68,7 +68,7 @@ theorem KPos.withToks {L : Lexer} (h : KPos L) {ts : List TokInfo}
 /-- every primitive preserves the positional invariant -/
 theorem step_KPos (cfg : Cfg) (o : Op) (L : Lexer) (h : KPos L) : KPos (step cfg o L).2 := by
   cases o <;> simp only [step]
-  case rest | lastTok | lastDefaultTok | hasCheckpoint | nesting | modeDepth | hasMark | litIsEmpty => exact h
+  case rest | lastTok | lastDefaultTok | secondLastDefaultTok | hasCheckpoint | nesting | modeDepth | hasMark | litIsEmpty => exact h
   case pendingText => exact h.pendingTextFrom _ _ _
   case pendingTextToMark => exact h.pendingTextFrom _ _ _
   case pendingTextWithPrev => exact h.pendingTextFrom _ _ _
